@@ -57,9 +57,6 @@ pub fn tape_target(data: &[u8]) -> Result<(), String> {
         &crate::props::c01::C01,
         &crate::props::c09::C09,
         &crate::props::c11::C11,
-        &crate::props::c06::C06,
-        &crate::props::c04::C04,
-        &crate::props::c14::C14,
     ] {
         if let Err(f) = p.check(&tapes, &mut st) {
             return Err(format!("{}: {}", p.id(), f.msg));
